@@ -38,8 +38,12 @@ VARIABLES ivs, pat, k, done
 Init == ivs \in UNION {[1..n -> {iv \in Ivs : Valid(iv)}] : n \in 0..(MaxN - 1)} /\ pat = "same" /\ k = 0 /\ done = FALSE
 Fs(iv, p) == [i \in 1..Len(iv) |-> Mk(i, iv[i][1], iv[i][2], Len(iv), p)]
 Hash(iv, p, kk) == SumSeq([i \in 1..Len(iv) |-> (iv[i][1] * 7 + iv[i][2] * 3) * i]) + kk * 5 + Len(p)
-OutView(o) == [k2 \in 1..Len(o) |-> [seqid |-> o[k2].f.seqid, start |-> o[k2].f.start, end |-> o[k2].f.end, strand |-> o[k2].f.strand,
-                                     ftype |-> o[k2].f.ftype, frame |-> o[k2].f.frame, id |-> o[k2].f.id, kids |-> o[k2].kids]]
+\* (agree_x: do the members of a merged output agree on column x?  Where they do not, the statement leaves the merged record's x open.)
+OutViewF(o, fs) == [k2 \in 1..Len(o) |-> [seqid |-> o[k2].f.seqid, start |-> o[k2].f.start, end |-> o[k2].f.end, strand |-> o[k2].f.strand,
+                                     ftype |-> o[k2].f.ftype, frame |-> o[k2].f.frame, id |-> o[k2].f.id, kids |-> o[k2].kids,
+                                     agree_seqid |-> \A a, b \in ToSet(o[k2].kids) : fs[a].seqid = fs[b].seqid,
+                                     agree_strand |-> \A a, b \in ToSet(o[k2].kids) : fs[a].strand = fs[b].strand,
+                                     agree_ftype |-> \A a, b \in ToSet(o[k2].kids) : fs[a].ftype = fs[b].ftype]]
 Next == /\ ~done /\ done' = TRUE
         /\ \E last \in {iv \in Ivs : Valid(iv)} \cup {<<>>} : ivs' = IF last = <<>> THEN ivs ELSE Append(ivs, last)
         /\ pat' \in Pats
@@ -51,8 +55,8 @@ Next == /\ ~done /\ done' = TRUE
                    (Hash(ivs', pat', k') % PrintMod # 0) \/ PrintT(ToJson([feats |-> Fs(ivs', pat'), cfg |-> cfg, exp |-> Inter_Decl(Fs(ivs', pat'), cfg)]))
            ELSE /\ k' \in 1..Len(CritSets)
                 /\ (Hash(ivs', pat', k') % PrintMod # 0) \/
-                   PrintT(ToJson([feats |-> Fs(ivs', pat'), crits |-> CritSets[k'], exp |-> OutView(Merge_Alg2(Fs(ivs', pat'), CritSets[k'], {}).out),
-                                  expdef |-> OutView(Merge_Alg2(Fs(ivs', pat'), DefaultCrits, {}).out)]))
+                   PrintT(ToJson([feats |-> Fs(ivs', pat'), crits |-> CritSets[k'], exp |-> OutViewF(Merge_Alg2(Fs(ivs', pat'), CritSets[k'], {}).out, Fs(ivs', pat')),
+                                  expdef |-> OutViewF(Merge_Alg2(Fs(ivs', pat'), DefaultCrits, {}).out, Fs(ivs', pat'))]))
 F == Fs(ivs, pat)
 ICfg == IF k = 6 THEN [newtype |-> <<>>, typeGiven |-> TRUE, mergeAttrs |-> TRUE, numeric |-> FALSE, update |-> <<>>] ELSE
         [newtype |-> IF k % 2 = 0 THEN <<>> ELSE T_intron, mergeAttrs |-> k <= 3, numeric |-> k = 2, update |-> IF k \in {3, 5} THEN <<<<<<110>>, <<<<122>>>>>>>> ELSE <<>>]   \* k = 5: update_attributes WITHOUT merge_attributes
